@@ -277,11 +277,11 @@ def gen_cases(rng, n, tier):
             if dup:                                                        # a segment listed more than once
                 idx = idx + [rng.choice(idx) for _ in range(rng.randint(1, 2))]
                 rng.shuffle(idx)
-            cases.append({"kind": "bisect" + ("_empty" if not idx else "_repeated" if dup else ("_closed" if closed else "_open")),
-                          "v": pts, "closed": closed, "idx": idx,
-                          # plain Python list instead of an int64 array (an EMPTY plain list is refused by the code:
-                          # proposed repair fixes/C08-bisect-plain-empty-list.diff; generated once that is applied)
-                          "plain": bool(idx) and rng.random() < 0.3})
+            # plain Python list instead of an int64 array; an EMPTY plain list (float64 after np.asarray) is accepted since
+            # fix 9cca2eb and must give the same polyline back
+            plain = rng.random() < (0.5 if not idx else 0.3)
+            kind = ("_empty_plain_list" if plain else "_empty") if not idx else "_repeated" if dup else ("_closed" if closed else "_open")
+            cases.append({"kind": "bisect" + kind, "v": pts, "closed": closed, "idx": idx, "plain": plain})
         elif u < 0.93:
             a, b = grid_vec(rng, -4, 4, 2), grid_vec(rng, -4, 4, 2)
             num = rng.choice([2, 3, 4, 5, 7, 8, 2, 1, 0, -3])
